@@ -133,6 +133,11 @@ def classify_k4(mode, ref, got):
                 # mode it is inserted below the layers of the loops it copies
                 elif exp is not None and cands[obs] and cands[exp] and obs[0] == "for" and obs != exp:
                     k4 = True
+            # the captured layer also lands below the alias layer of an ENCLOSING fill that is still being rendered: a
+            # slot-data alias of that fill, named like the variable, shows through instead of the nearer captured binding
+            if not k4 and exp is not None and any(exp == (k, s_) and cap for k, s_, cap in recd["cands"]):
+                if recd["name"] in recd["fill_aliases"] and obs_val == html.escape(str(recd["fill_aliases"][recd["name"]])):
+                    k4 = True
         # --- K1 (token level, for transitive forwarding the exact model does not reproduce): a loop variable of a
         #     loop that dynamically encloses the read shows up although it is not visible by the statement's rule
         k1 = False
